@@ -111,7 +111,8 @@ JudgeAdd ==
                  bat |-> X.bat[A.b], wantBat |-> Names(AfterAdd), ev |-> [deliver |-> Dl, pushes |-> SD, publish |-> Pb]]
         tags == {"add-" \o A.kind} \cup Tag(~IsNew, "add-known-id") \cup Tag(Len(AfterAdd) >= 3, "batch-of-3-or-more")
                 \cup Tag(Cardinality({AfterAdd[i].t : i \in DOMAIN AfterAdd}) >= 2, "batch-mixed-topics")
-    IN /\ X.res # WantRes => Viol("P_X05_Admit", IF WantRes = "ok" THEN "accepted-message-refused" ELSE "validation-error-not-returned", more)
+    IN /\ X.res # WantRes => Viol("P_X05_Admit", IF WantRes # "ok" THEN "validation-error-not-returned"
+                                                   ELSE IF IsNew THEN "accepted-message-refused" ELSE "duplicate-not-answered-with-nil", more)
        /\ X.bat[A.b] # Names(AfterAdd) =>
              Viol("P_X05_Admit", CASE ~IsNew -> "duplicate-added" [] A.kind \in {"reject", "ignore"} -> "rejected-message-added"
                                    [] OTHER -> "accepted-message-not-added", more)
